@@ -188,6 +188,8 @@ class Run:
         self.violations = []          # dict(key, id, clauses, event, replay)
         self.known = []
         self.drift = []
+        self.clause_counts = {}
+        self.clauses_evaluated = 0
         self.timing = {}
         self.notes = []
         self.assumptions = []
@@ -250,6 +252,7 @@ class Run:
         self.timing["trace_validation"] = self.timing.get("trace_validation", 0) + v.wall_s
         self.events += v.events
         self.accepted += v.accepted
+        self.clauses_evaluated += v.clauses
         self.states += v.states
         self.transitions += v.events
         if v.rejects:
@@ -263,6 +266,8 @@ class Run:
         return v
 
     def _reject(self, trace_module, ev, clauses, keyfn):
+        for c in set(clauses):
+            self.clause_counts[c] = self.clause_counts.get(c, 0) + 1
         hard = [c for c in clauses if not c.startswith("drift:")]
         if not hard:
             # internals differ from Layer A but every observable clause held: MODEL-DRIFT, not a violation
@@ -322,6 +327,8 @@ class Run:
             "known_findings_reproduced": self.known[:50],
             "violation_keys": [v["key"][:300] for v in self.violations[:50]],
             "notes": self.notes,
+            "rejected_clause_counts": self.clause_counts,
+            "clauses_evaluated_by_tlc": self.clauses_evaluated,
             "model_drift": {"events": len(self.drift), "examples": self.drift[:5]},
             "timing_s": {k: round(v, 1) for k, v in self.timing.items()},
         }
@@ -348,7 +355,9 @@ class Run:
         if self.drift:
             print(f"MODEL-DRIFT {self.prop}: {len(self.drift)} events whose internals differ from Layer A "
                   f"(observables held; exhaustive TLC result does not transfer for them), e.g. {self.drift[0]['clauses']}")
+        if self.clause_counts:
+            print(f"rejected clauses (events): {self.clause_counts}")
         print(f"[{self.prop} {self.tier}] states={self.states} transitions={self.transitions} "
-              f"events={self.events} accepted={self.accepted} distinct_nontrivial={len(self.nontrivial_hashes)} "
+              f"events={self.events} accepted={self.accepted} clauses={self.clauses_evaluated} distinct_nontrivial={len(self.nontrivial_hashes)} "
               f"violations={len(self.violations)} known={len(self.known)} wall={wall:.1f}s")
         return 1 if self.violations else 0
